@@ -8,11 +8,11 @@ package main
 //              through the hook, to primeFieldParamsMatch against every table row (sorted by name)
 //   unmarshal  input (expected-obs der)            impl what asn1.Unmarshal into ECParameters yields
 //              validates the oracle: the field values handed to the model are the file's
-//   inspect    input (container pem (state fields)) impl outcome of file.Inspect, full Info
-//   inspectx   input (container pem)               impl (outcome, list of "Curve (inferred)" values)
+//   inspect    input (container pem (state fields) file-bytes) impl outcome of file.Inspect, full Info
+//   inspectx   input (container pem () file-bytes) impl (outcome, list of "Curve (inferred)" values)
 //              damaged files in which no ECParameters structure decodes at any offset (of the file,
 //              of any PEM block in it, of its base64 decoding): nothing may be inferred
-//   inspectq   input (container pem (fields...))   impl as inspectx; spec checker only: damaged
+//   inspectq   input (container pem (fields...) file-bytes) impl as inspectx; spec checker only: damaged
 //              files the model does not describe but in which some ECParameters structure still
 //              decodes somewhere: a name may be shown only if one of them has that curve's components
 //   table      input ()                            impl the curve table after all calls above
@@ -512,18 +512,18 @@ func (g *c16Gen) emitFile(tag string, kind int, pemForm bool, data []byte) {
 	}
 	switch {
 	case state == 2:
-		g.c.Emit("inspect:"+tag, SL{I(kind), I(pf), SL{I(2), fieldsOf(p).Sx()}}, g.inspectFile(data, false))
+		g.c.Emit("inspect:"+tag, SL{I(kind), I(pf), SL{I(2), fieldsOf(p).Sx()}, SB(data)}, g.inspectFile(data, false))
 	case state == 1 || state == 0 && pemForm:
-		g.c.Emit("inspect:"+tag, SL{I(kind), I(pf), SL{I(state)}}, g.inspectFile(data, false))
+		g.c.Emit("inspect:"+tag, SL{I(kind), I(pf), SL{I(state)}, SB(data)}, g.inspectFile(data, false))
 	default:
 		cands := SL{}
 		for _, f := range candidateParams(data) {
 			cands = append(cands, f.Sx())
 		}
 		if len(cands) == 0 {
-			g.c.Emit("inspectx:"+tag, SL{I(kind), I(pf)}, g.inspectFile(data, true))
+			g.c.Emit("inspectx:"+tag, SL{I(kind), I(pf), SL{}, SB(data)}, g.inspectFile(data, true))
 		} else {
-			g.c.Emit("inspectq:"+tag, SL{I(kind), I(pf), cands}, g.inspectFile(data, true))
+			g.c.Emit("inspectq:"+tag, SL{I(kind), I(pf), cands, SB(data)}, g.inspectFile(data, true))
 		}
 	}
 }
@@ -545,13 +545,14 @@ func candidateParams(data []byte) []ecFields {
 		}
 	}
 	scan(data)
-	for rest := data; ; {
-		var blk *pem.Block
-		blk, rest = pem.Decode(rest)
-		if blk == nil {
-			break
+	// every place a PEM block may start (the code skips to "-----BEGIN " anywhere, not only at a
+	// line start as pem.Decode does)
+	for i := 0; i+10 <= len(data); i++ {
+		if bytes.HasPrefix(data[i:], []byte("-----BEGIN")) {
+			if blk, _ := pem.Decode(data[i:]); blk != nil {
+				scan(blk.Bytes)
+			}
 		}
-		scan(blk.Bytes)
 	}
 	func() {
 		defer func() { recover() }()
@@ -850,6 +851,31 @@ func genC16(c *Ctx) {
 			kind = kPKCS8
 		}
 		g.emitFile("fixture", kind, pemForm, data)
+	}
+	// --- the table's own rows as explicit parameters (with a genuine table these repeat the genuine
+	// sets; with a corrupted constant they are the concrete input on which a wrong name is inferred) ---
+	for _, r := range before {
+		prime, ok1 := new(big.Int).SetString(r.Key, 10)
+		order, ok2 := new(big.Int).SetString(r.Order, 10)
+		ci := -1
+		for i := range g.curves {
+			if g.curves[i].name == r.Name {
+				ci = i
+			}
+		}
+		if !ok1 || !ok2 || ci < 0 || len(r.BaseY) == 0 {
+			continue
+		}
+		for _, compressed := range []bool{false, true} {
+			s := ecSpec{field: oidPrimeField, primeTag: 0x02, primeC: intContent(prime), a: cp(r.A), b: cp(r.B),
+				orderC: intContent(order), hasCof: true, cofC: []byte{1}, hasSeed: true, seed: cp(r.Seed)}
+			if compressed {
+				s.base = append([]byte{2 + r.BaseY[len(r.BaseY)-1]&1}, r.BaseX...)
+			} else {
+				s.base = append(append([]byte{4}, r.BaseX...), r.BaseY...)
+			}
+			g.paramCase("table-row", g.curves[ci], s, false)
+		}
 	}
 	// --- structured stream ---
 	for ci := range g.curves {
